@@ -72,6 +72,8 @@ structure Env where
   assignable : TyId → TyId → Bool
   /-- `types.ConvertibleTo(a, b)` -/
   convertible : TyId → TyId → Bool
+  /-- `types.Identical(a, b)` -/
+  identical : TyId → TyId → Bool := fun a b => a == b
   /-- `types.LookupFieldOrMethod(t, true, PkgOf(t), name)` -/
   lookup : TyId → String → Lookup
   /-- `pkg.Types.Scope().Lookup(name) != nil` -/
